@@ -280,6 +280,16 @@ class Findings:
 
 # ----------------------------------------------------------------------------------------------
 
+def cap_hist(h, n=80):
+    """keep the n most frequent keys of a histogram (evidence files must stay small)"""
+    if len(h) <= n:
+        return h
+    items = sorted(h.items(), key=lambda kv: -kv[1])
+    out = dict(items[:n])
+    out['(other: %d keys)' % (len(items) - n)] = sum(v for _, v in items[n:])
+    return out
+
+
 def write_json(path, obj):
     os.makedirs(os.path.dirname(path), exist_ok=True)
     tmp = path + '.tmp'
@@ -434,7 +444,7 @@ def _run_check(prop, tier='quick', seed=None, replay=None):
     for c, i, (m, s) in zip(cases, impl, ms):
         toks = c.split(' ')
         opcount[toks[0]] = opcount.get(toks[0], 0) + 1
-        if len(toks) > 1:
+        if len(toks) > 1 and toks[1].isdigit() and len(toks[1]) <= 6:
             widthcount[toks[1]] = widthcount.get(toks[1], 0) + 1
         oc = i.split(' ')[0] if i else ''
         oc = oc if oc in ('some', 'none', 'panic', 'err', 'ok', 'abort', 'timeout') else 'value'
@@ -539,7 +549,7 @@ def _run_check(prop, tier='quick', seed=None, replay=None):
         'rule': getattr(mod, 'RULE', 'structured generator (value classes x widths x ops), corpus first; a case is non-trivial when its operands are not all zero and the width is > 0; distinct by hash of the case line'),
         'samples': samples,
         'traces_validated_against_impl': len(cases),
-        'ops': opcount, 'widths': widthcount, 'impl_outcomes': outcome,
+        'ops': cap_hist(opcount), 'widths': cap_hist(widthcount), 'impl_outcomes': cap_hist(outcome),
         'hook_counters': {str(k): v for k, v in sorted(hooks.items())},
         'known_findings_seen': {k: len(v) for k, v in known.items()},
         'profile': 'dev: opt-level=1, debug-assertions=on, overflow-checks=on',
